@@ -13,4 +13,12 @@ CLAIMED = {
         "note": "Trusted: numpy reference gate matrices (self-tested at setup). Not covered: angles outside the alphabet, depth > 3 (4 in thorough on a 22-gate alphabet), > 3 logical qubits.",
     },
 }
+CLAIMED["C11"] = {
+    "engine": "stategraph",
+    "technique": "explicit-state BFS over live Circuit objects (33 operations per state, depth 3/4), invariant = metadata recomputed from the gate list; exhaustive menu of invalid constructions",
+    "text": "Breadth-first exploration of every state of a Circuit object reachable within 3 (quick) / 4 (thorough) operations from 4 start circuits under add_gate (9 gates incl. string parameter, multi-control, MEASURE, out-of-range), +, *, copy, inverse, trim, reindex, split, stack, the four simplifiers (in place and module level) and IonQ/ProjectQ round trips; in every state width/size/counts/arity counts/flags/depth and the identity of the variational gates are recomputed from the gate list, and 13 read-only operations (translate to 4 formats, simulate on cirq and sympy, expectation value, depth, serialize, iterate, ...) are run with operand snapshots. 270 invalid Gate constructions and out-of-range add_gate calls must raise and leave the circuit untouched. All histories within the bound are covered, which is what 'after any sequence of operations' needs; unit tests only look at fresh circuits.",
+    "note": "Trusted: the recomputation in mc/ref/circuitmeta.py (self-tested). Not covered: histories longer than the bound, gates outside the 9-gate menu, backends not installed.",
+}
+ENGINES.append({"name": "stategraph", "path": "/verif/mc/stategraph.py", "serves_properties": ["C11"],
+                "kind_free_text": "explicit-state breadth-first search; transitions call the real methods on live objects; states rebuilt by replaying histories and cross-checked against deepcopy; canonical projection hashed for dedup"})
 NOT_CLAIMED = {}
